@@ -754,7 +754,12 @@ func (vt *v2T) scenC10() {
 		name string
 		docs []v2Doc
 	}
-	corps := []corp{{"small", small}, {"empty", nil}, {"emptydoc", append(append([]v2Doc(nil), small[:1]...), emptyDocs...)}}
+	// names are just strings: empty ones, "." and ".." (the index name is category/name/variant glued with the separator, never a path to clean)
+	odd := func(cat, name, variant string, d v2Doc) v2Doc {
+		return v2Doc{Key: cat + "/" + name + "/" + variant, Cat: cat, Name: name, Variant: variant, Data: d.Data}
+	}
+	oddDocs := []v2Doc{odd("", "mit", "", small[0]), odd("License", "..", "x", small[1]), odd(".", "x", ".", small[2])}
+	corps := []corp{{"small", small}, {"empty", nil}, {"emptydoc", append(append([]v2Doc(nil), small[:1]...), emptyDocs...)}, {"oddnames", oddDocs}}
 	thrs := []float64{0, 0.2, 0.5, 0.8, 0.9, 1.0, 1 - 1e-12, math.Nextafter(1, 0), 0.999}
 	seeds := [][]byte{small[0].Data, small[1].Data}
 	mut := func(b []byte) []byte {
@@ -809,6 +814,13 @@ func (vt *v2T) scenC10() {
 	// the corpus documents themselves: the only inputs that still produce hits at thresholds next to 1
 	inputs = append(inputs, seeds...)
 	inputs = append(inputs, append(append([]byte("zzqxv qqzzk\n"), seeds[0]...), []byte("\nxqzvv\n")...))
+	for _, d := range small { // ... and each of them with a word missing, a word added, a word replaced
+		w := strings.Fields(string(d.Data))
+		k := len(w) / 2
+		inputs = append(inputs, []byte(strings.Join(append(append([]string(nil), w[:k]...), w[k+1:]...), " ")),
+			[]byte(strings.Join(append(append(append([]string(nil), w[:k]...), "zzqxvaa"), w[k:]...), " ")),
+			[]byte(strings.Join(append(append(append([]string(nil), w[:k]...), "zzqxvaa"), w[k+1:]...), " ")))
+	}
 	for k := 0; k < nmut; k++ {
 		inputs = append(inputs, mut(seeds[vt.rng.Intn(len(seeds))]))
 	}
